@@ -12,5 +12,6 @@ def check(ctx):
     accounting.write_back_masks(ctx, 'C05-R4')
     accounting.hits_immutable(ctx, 'C05-R6')
     indexing.data_index_state(ctx, 'C05-R6')
+    accounting.ncomp_rewritten(ctx, 'C05-R7')
     ctx.undecided += ['that scikit-learn returns one label per row; that every mixture component is populated '
                       '(run-time assert in layer.ncomp_from_gmm); that k sub-components give k layers numerically']
